@@ -329,6 +329,8 @@ impl Ingester {
                     }
                 };
                 self.last_wal_seq.store(seq, Ordering::Release);
+                #[cfg(cardinalsin_verif)]
+                crate::verif_hooks::pause("ingester.after_wal_append").await;
             } else if self.config.wal.enabled {
                 telemetry::record_wal_operation("append", "error");
                 if !self.wal_warned.swap(true, Ordering::Relaxed) {
@@ -374,6 +376,8 @@ impl Ingester {
                 }
             };
             self.last_wal_seq.store(seq, Ordering::Release);
+            #[cfg(cardinalsin_verif)]
+            crate::verif_hooks::pause("ingester.after_wal_append").await;
         } else if self.config.wal.enabled {
             telemetry::record_wal_operation("append", "error");
             if !self.wal_warned.swap(true, Ordering::Relaxed) {
